@@ -246,3 +246,16 @@ Section Thm.
     - left; split; reflexivity.
   Qed.
 End Thm.
+
+Lemma range_check_spec c off cnt :
+  garbler_range_ok c off cnt = true <-> off = N.of_nat (n0 c) /\ cnt = N.of_nat (n1 c).
+Proof.
+  unfold garbler_range_ok. rewrite andb_true_iff, !N.eqb_eq. tauto.
+Qed.
+
+Lemma gate_count_check c key cnt rest :
+  cnt <> N.of_nat (length (gates (cc c))) ->
+  evaluator_first c (MData key :: MU32 cnt :: rest) = None.
+Proof.
+  intros H. unfold evaluator_first. destruct (N.eqb_spec cnt (N.of_nat (length (gates (cc c))))); [contradiction|reflexivity].
+Qed.
